@@ -195,6 +195,9 @@ def derive_edges(shape) -> List[list]:
                         if s not in seen:
                             seen.append(s)
                             edges.append([si, bi, s, "Return", False, True])
+                elif shape.get("shared_ret"):
+                    # one "unknown caller" proxy shared by every return without a known site
+                    edges.append([si, bi, ["proxy", "#ret"], "Return", False, True])
                 else:
                     edges.append([si, bi, ["proxy", f"#{pid}"], "Return", False, True])
                     pid += 1
